@@ -391,6 +391,11 @@ func (k *c15) genSoil(r *vh.Rng, route string, n int) []proj.Horizon {
 			if h.PV > 95 {
 				h.PV = 95
 			}
+			// a measured bulk density beside the explicit values (optional CSV column): it feeds the heat scheme only, the
+			// water parameters stay the ones of the file (derived without touching the random stream)
+			if route == "explicit" && (h.WP+h.FC+h.PV)%3 == 0 {
+				h.Bulk = 1.05 + float64((h.WP*7+h.FC*3+h.PV)%80)/100
+			}
 		}
 		if strings.HasPrefix(route, "ptf") {
 			h.PV = r.Range(35, 70) // the pore volume the pedotransfer routes still read from the soil file
